@@ -68,11 +68,13 @@ def c16_dec_jobs(prefix, tier):
             jobs.append(dec_job(prefix, 'TAG_ARRAY', 6, etag=et, count=cnt, tier=tier))
         for size in ((12,) if tier == 'quick' else (8, 12, 14)):   # 17-byte nested arrays: no verdict in 1200 s (measured)
             for t1 in ('TAG_INT', 'TAG_STRING', 'TAG_BOOL', 'TAG_VOID', 'TAG_ARRAY'):
+                if size > 12 and t1 == 'TAG_ARRAY': continue      # nested arrays beyond 12 bytes: no verdict in 1200 s (measured)
                 jobs.append(dec_job(prefix, 'TAG_ARRAY', size, etag=et, tag1=t1, count=1, tier=tier))
                 jobs.append(dec_job(prefix, 'TAG_ARRAY', size, etag=et, tag1=t1, count=0xFFFFFFFF, tier=tier))
             for t1 in ('TAG_BOOL', 'TAG_VOID'):
                 for t2 in ('TAG_STRING', 'TAG_INT', 'TAG_ARRAY'):
                     if 6 + {'TAG_BOOL': 2, 'TAG_VOID': 1}[t1] >= size: continue
+                    if size > 12 and t2 == 'TAG_ARRAY': continue
                     jobs.append(dec_job(prefix, 'TAG_ARRAY', size, etag=et, tag1=t1, count=2, tag2=t2, tier=tier))
     return jobs
 
